@@ -259,31 +259,65 @@ def cargo_build(crate, features=(), profile="release", hook=False, tag=None):
     return path, out
 
 
-def run_lines(binary, lines, timeout=900, env=None, args=()):
-    """feed lines to a line-oriented process; returns list of output lines (same count expected)"""
-    data = "\n".join(lines) + "\n"
-    p = subprocess.run([binary, *args], input=data, stdout=subprocess.PIPE, stderr=subprocess.PIPE,
-                       text=True, timeout=timeout, env=env or env_offline())
-    out = p.stdout.split("\n")
+def run_lines(binary, lines, timeout=900, env=None, args=(), line_timeout=None):
+    """feed lines to a line-oriented process; returns (rc, output lines, stderr) - the same count of output lines is expected.
+    The process must answer (and flush) one line per input line. With [line_timeout] a watchdog kills it when one answer takes
+    longer than that (or when the whole run exceeds [timeout]): rc = -9, the lines answered so far are returned."""
+    import selectors, threading
+    data = ("\n".join(lines) + "\n").encode()
+    p = subprocess.Popen([binary, *args], stdin=subprocess.PIPE, stdout=subprocess.PIPE, stderr=subprocess.PIPE, env=env or env_offline())
+
+    def feed():
+        try:
+            p.stdin.write(data); p.stdin.close()
+        except (BrokenPipeError, OSError):
+            pass
+    errbuf = []
+    threading.Thread(target=feed, daemon=True).start()
+    threading.Thread(target=lambda: errbuf.append(p.stderr.read()), daemon=True).start()
+    sel = selectors.DefaultSelector(); sel.register(p.stdout, selectors.EVENT_READ)
+    buf = b""; t0 = time.time(); last = time.time(); killed = False
+    fd = p.stdout.fileno()
+    while True:
+        now = time.time()
+        wait = timeout - (now - t0)
+        if line_timeout is not None:
+            wait = min(wait, line_timeout - (now - last))
+        if wait <= 0:
+            p.kill(); killed = True
+            break
+        if not sel.select(timeout=min(wait, 5.0)):
+            continue
+        chunk = os.read(fd, 1 << 16)
+        if not chunk:
+            break
+        if b"\n" in chunk:
+            last = time.time()
+        buf += chunk
+    p.wait()
+    out = buf.decode(errors="replace").split("\n")
     if out and out[-1] == "":
         out.pop()
-    return p.returncode, out, p.stderr
+    elif out and killed:
+        out.pop()          # incomplete last line
+    time.sleep(0.01)
+    return (-9 if killed else p.returncode), out, (errbuf[0].decode(errors="replace") if errbuf and errbuf[0] else "")
 
 
-def run_lines_isolated(binary, lines, timeout=900, env=None):
-    """like run_lines, but survives aborts of the child: on a crash the offending line is marked
-    ABORT and the remaining lines are run in a new process."""
+def run_lines_isolated(binary, lines, timeout=900, env=None, line_timeout=15):
+    """like run_lines, but survives aborts and hangs of the child: on a crash the offending line is marked ABORT, on an answer
+    that takes longer than [line_timeout] seconds HANG, and the remaining lines are run in a new process."""
     res = []
     todo = list(lines)
     while todo:
-        rc, out, err = run_lines(binary, todo, timeout=timeout, env=env)
+        rc, out, err = run_lines(binary, todo, timeout=timeout, env=env, line_timeout=line_timeout)
         if rc == 0 and len(out) == len(todo):
             res += out
             break
-        # process died after len(out) complete lines
+        # process died (or was killed) after len(out) complete lines
         k = min(len(out), len(todo) - 1)
         res += out[:k]
-        res.append("ABORT")
+        res.append("HANG" if rc == -9 else "ABORT")
         todo = todo[k + 1:]
     return res
 
@@ -498,7 +532,7 @@ class Differential:
             if self.isolated:
                 impl[b] = run_lines_isolated(path, hl)
             else:
-                rc, out, err = run_lines(path, hl)
+                rc, out, err = run_lines(path, hl, line_timeout=15)
                 if rc != 0 or len(out) != len(hl):
                     impl[b] = run_lines_isolated(path, hl)
                 else:
